@@ -353,6 +353,26 @@ def check_kinematics_buffers(w, um, log, kind):
         dr = float(np.abs(r1 - r2).max())
         dK = float(np.abs(K1 - K2).max())
         raise Violation(PROP, kind, f"a body evaluated again at the same field after its handed-out kinematics arrays were overwritten gives other forces / stiffness (max diff {dr:.3e} / {dK:.3e})", site=f"{type(f0).__name__}.kinematics-buffer")
+    # a second model of the same shape alive in the same process (two bodies / two jobs): what one
+    # field handed out does not change when the other field is evaluated, and a body's stiffness
+    # (from its stored kinematics) does not depend on what another body did in between
+    w2 = world.World(copy.deepcopy(w.doc))
+    w2.set_values([1.7 * np.asarray(v) + 0.003 * rng.normal(size=np.shape(v)) for v in w.values()])
+    Fa = w.field.extract()
+    keep = [np.array(a, copy=True) for a in Fa]
+    bodyA = fem.SolidBody(um, w.field)
+    rA = bodyA.assemble.vector(field=w.field).toarray()
+    KA_ref = bodyA.assemble.matrix().toarray()
+    bodyB = fem.SolidBody(um, w2.field)
+    rA2 = bodyA.assemble.vector(field=w.field).toarray()
+    bodyB.assemble.vector(field=w2.field)
+    w2.field.extract()
+    KA = bodyA.assemble.matrix().toarray()
+    for a, b_ in zip(Fa, keep):
+        if not np.array_equal(np.asarray(a), b_, equal_nan=True):
+            raise Violation(PROP, kind, "an array returned by field.extract() changed when another field of the same shape was evaluated", site=f"{type(f0).__name__}.extract.shared")
+    if not (np.array_equal(KA, KA_ref, equal_nan=True) and np.array_equal(rA, rA2, equal_nan=True)):
+        raise Violation(PROP, kind, f"the stiffness of a body (from its stored kinematics) changed after another body of the same shape was evaluated (max diff {np.nanmax(np.abs(KA - KA_ref)):.3e})", site=f"{type(f0).__name__}.two-bodies")
     log.count("kinematics-buffers-checked")
 
 # ----------------------------------------------------------------------------------------
